@@ -66,6 +66,7 @@ type arrayRun struct {
 	splits  int
 	merges  int
 	maxFan  int
+	stretch int    // remaining operations of a commit-and-reopen-after-every-operation stretch
 	hugeIdx uint64 // index of the current rejected request when it exceeds int64
 	tall    bool   // thousands of tiny elements at the smallest slab size, then long runs of tail removals (height 3-4, index-slab rebalancing)
 	deep    bool   // many small elements: index slabs with >= 32 children (binary-search routing), height 3
@@ -656,6 +657,9 @@ func (r *arrayRun) reopenCheck() {
 	// C01/C03: after commit the array can be reopened by its root identifier in a brand-new storage
 	var err error
 	mode := r.rng.Intn(4)
+	if r.stretch > 0 {
+		mode = 2 + r.rng.Intn(2) // commit after every operation, reopen on the same storage
+	}
 	if mode&1 == 1 {
 		err = r.st.NondeterministicFastCommit(1 + r.rng.Intn(4))
 	} else {
@@ -889,6 +893,13 @@ func cmdArray(a Args) {
 				}
 				if k%97 == 96 {
 					r.reopenCheck()
+				}
+				if k == steps*3/5 && !deep && !tall && hr.Chance(40) {
+					r.stretch = 80 // the shrink phase starts: root promotions happen under a commit-every-op schedule
+				}
+				if r.stretch > 0 {
+					r.reopenCheck()
+					r.stretch--
 				}
 			}
 			if !r.failed {
